@@ -277,4 +277,108 @@ theorem unmarshalDynamic_enc (items : List (List Nat)) (M : Nat) (hM : ∀ x ∈
     · simp only [List.length_cons] at h32; omega
     · simp [tabTail]
 
+/-! ### the whole `qbft.Message` -/
+
+structure QMsg.WF (m : QMsg) : Prop where
+  msgType : m.msgType < 2 ^ 64
+  height : m.height < 2 ^ 64
+  round : m.round < 2 ^ 64
+  dataRound : m.dataRound < 2 ^ 64
+  bounded : m.Bounded
+
+theorem flatten_le (l : List (List Nat)) (M : Nat) (h : ∀ x ∈ l, x.length ≤ M) : l.flatten.length ≤ l.length * M := by
+  induction l with
+  | nil => simp
+  | cons x r ih =>
+    have := h x (by simp)
+    have := ih (fun y hy => h y (by simp [hy]))
+    simp only [List.flatten_cons, List.length_append, List.length_cons, Nat.add_mul]; omega
+
+@[simp] theorem encodeDyn_length (l : List (List Nat)) : (encodeDyn l).length = 4 * l.length + l.flatten.length := by
+  simp [encodeDyn]
+
+theorem decode_encodeQMsg {m : QMsg} (h : m.WF) : decodeQMsg (encodeQMsg m) = .ok m := by
+  obtain ⟨ht, hh, hr, hdr, hid, hroot, hn6, hs6, hn7, hs7⟩ := h
+  have hf6 := flatten_le m.rcj 65536 hs6
+  have hf7 := flatten_le m.pj 65536 hs7
+  simp only [maxIdentifier, maxJustifications, maxJustificationSize] at hid hn6 hn7 hs6 hs7
+  have d6 := decodeDynamicLength_enc m.rcj 13 hn6 (by omega)
+  have u6 := unmarshalDynamic_enc m.rcj 65536 hs6 (by omega)
+  have d7 := decodeDynamicLength_enc m.pj 13 hn7 (by omega)
+  have u7 := unmarshalDynamic_enc m.pj 65536 hs7 (by omega)
+  have hJ : (encodeDyn m.rcj).length = 4 * m.rcj.length + m.rcj.flatten.length := encodeDyn_length _
+  have hK : (encodeDyn m.pj).length = 4 * m.pj.length + m.pj.flatten.length := encodeDyn_length _
+  unfold decodeQMsg encodeQMsg
+  generalize encodeDyn m.rcj = J at *
+  generalize encodeDyn m.pj = K at *
+  obtain ⟨t, hgt, r, I, root, dr, rcj, pj⟩ := m
+  simp only at *
+  have hlen : (leBytes 8 t ++ leBytes 8 hgt ++ leBytes 8 r ++ leBytes 4 qmsgFixed ++ root ++ leBytes 8 dr ++
+      leBytes 4 (qmsgFixed + I.length) ++ leBytes 4 (qmsgFixed + I.length + J.length) ++ I ++ J ++ K).length
+      = 76 + I.length + J.length + K.length := by simp [hroot, qmsgFixed]; omega
+  simp only [hlen, bind_eq]
+  rw [if_neg (by simp [qmsgFixed]; omega)]
+  generalize hbuf : (leBytes 8 t ++ leBytes 8 hgt ++ leBytes 8 r ++ leBytes 4 qmsgFixed ++ root ++ leBytes 8 dr ++
+      leBytes 4 (qmsgFixed + I.length) ++ leBytes 4 (qmsgFixed + I.length + J.length) ++ I ++ J ++ K) = buf
+  have e1 : slice buf 0 8 = .ok (leBytes 8 t) := by
+    have := slice_mid [] (leBytes 8 t) (leBytes 8 hgt ++ leBytes 8 r ++ leBytes 4 qmsgFixed ++ root ++ leBytes 8 dr ++
+      leBytes 4 (qmsgFixed + I.length) ++ leBytes 4 (qmsgFixed + I.length + J.length) ++ I ++ J ++ K) 0 8 rfl (by simp)
+    rw [← hbuf]; simpa [List.append_assoc] using this
+  have e2 : slice buf 8 16 = .ok (leBytes 8 hgt) := by
+    have := slice_mid (leBytes 8 t) (leBytes 8 hgt) (leBytes 8 r ++ leBytes 4 qmsgFixed ++ root ++ leBytes 8 dr ++
+      leBytes 4 (qmsgFixed + I.length) ++ leBytes 4 (qmsgFixed + I.length + J.length) ++ I ++ J ++ K) 8 16 (by simp) (by simp)
+    rw [← hbuf]; simpa [List.append_assoc] using this
+  have e3 : slice buf 16 24 = .ok (leBytes 8 r) := by
+    have := slice_mid (leBytes 8 t ++ leBytes 8 hgt) (leBytes 8 r) (leBytes 4 qmsgFixed ++ root ++ leBytes 8 dr ++
+      leBytes 4 (qmsgFixed + I.length) ++ leBytes 4 (qmsgFixed + I.length + J.length) ++ I ++ J ++ K) 16 24 (by simp) (by simp)
+    rw [← hbuf]; simpa [List.append_assoc] using this
+  have e4 : slice buf 24 28 = .ok (leBytes 4 qmsgFixed) := by
+    have := slice_mid (leBytes 8 t ++ leBytes 8 hgt ++ leBytes 8 r) (leBytes 4 qmsgFixed) (root ++ leBytes 8 dr ++
+      leBytes 4 (qmsgFixed + I.length) ++ leBytes 4 (qmsgFixed + I.length + J.length) ++ I ++ J ++ K) 24 28 (by simp) (by simp)
+    rw [← hbuf]; simpa [List.append_assoc] using this
+  have e5 : slice buf 28 60 = .ok root := by
+    have := slice_mid (leBytes 8 t ++ leBytes 8 hgt ++ leBytes 8 r ++ leBytes 4 qmsgFixed) root (leBytes 8 dr ++
+      leBytes 4 (qmsgFixed + I.length) ++ leBytes 4 (qmsgFixed + I.length + J.length) ++ I ++ J ++ K) 28 60 (by simp) (by simp [hroot])
+    rw [← hbuf]; simpa [List.append_assoc] using this
+  have e6 : slice buf 60 68 = .ok (leBytes 8 dr) := by
+    have := slice_mid (leBytes 8 t ++ leBytes 8 hgt ++ leBytes 8 r ++ leBytes 4 qmsgFixed ++ root) (leBytes 8 dr)
+      (leBytes 4 (qmsgFixed + I.length) ++ leBytes 4 (qmsgFixed + I.length + J.length) ++ I ++ J ++ K) 60 68 (by simp [hroot]) (by simp [hroot])
+    rw [← hbuf]; simpa [List.append_assoc] using this
+  have e7 : slice buf 68 72 = .ok (leBytes 4 (qmsgFixed + I.length)) := by
+    have := slice_mid (leBytes 8 t ++ leBytes 8 hgt ++ leBytes 8 r ++ leBytes 4 qmsgFixed ++ root ++ leBytes 8 dr)
+      (leBytes 4 (qmsgFixed + I.length)) (leBytes 4 (qmsgFixed + I.length + J.length) ++ I ++ J ++ K) 68 72 (by simp [hroot]) (by simp [hroot])
+    rw [← hbuf]; simpa [List.append_assoc] using this
+  have e8 : slice buf 72 76 = .ok (leBytes 4 (qmsgFixed + I.length + J.length)) := by
+    have := slice_mid (leBytes 8 t ++ leBytes 8 hgt ++ leBytes 8 r ++ leBytes 4 qmsgFixed ++ root ++ leBytes 8 dr ++
+      leBytes 4 (qmsgFixed + I.length)) (leBytes 4 (qmsgFixed + I.length + J.length)) (I ++ J ++ K) 72 76 (by simp [hroot]) (by simp [hroot])
+    rw [← hbuf]; simpa [List.append_assoc] using this
+  have e9 : slice buf (qmsgFixed + I.length - I.length) (qmsgFixed + I.length) = .ok I := by
+    have := slice_mid (leBytes 8 t ++ leBytes 8 hgt ++ leBytes 8 r ++ leBytes 4 qmsgFixed ++ root ++ leBytes 8 dr ++
+      leBytes 4 (qmsgFixed + I.length) ++ leBytes 4 (qmsgFixed + I.length + J.length)) I (J ++ K) (qmsgFixed + I.length - I.length) (qmsgFixed + I.length)
+      (by simp [hroot, qmsgFixed]) (by simp [hroot, qmsgFixed])
+    rw [← hbuf]; simpa [List.append_assoc] using this
+  have e10 : slice buf (qmsgFixed + I.length) (qmsgFixed + I.length + J.length) = .ok J := by
+    have := slice_mid (leBytes 8 t ++ leBytes 8 hgt ++ leBytes 8 r ++ leBytes 4 qmsgFixed ++ root ++ leBytes 8 dr ++
+      leBytes 4 (qmsgFixed + I.length) ++ leBytes 4 (qmsgFixed + I.length + J.length) ++ I) J K (qmsgFixed + I.length) (qmsgFixed + I.length + J.length)
+      (by simp [hroot, qmsgFixed]; omega) (by simp [hroot, qmsgFixed]; omega)
+    rw [← hbuf]; simpa [List.append_assoc] using this
+  have e11 : sliceFrom buf (qmsgFixed + I.length + J.length) = .ok K := by
+    have := sliceFrom_end (leBytes 8 t ++ leBytes 8 hgt ++ leBytes 8 r ++ leBytes 4 qmsgFixed ++ root ++ leBytes 8 dr ++
+      leBytes 4 (qmsgFixed + I.length) ++ leBytes 4 (qmsgFixed + I.length + J.length) ++ I ++ J) K (qmsgFixed + I.length + J.length)
+      (by simp [hroot, qmsgFixed]; omega)
+    rw [← hbuf]; simpa [List.append_assoc] using this
+  have e9' : slice buf qmsgFixed (qmsgFixed + I.length) = .ok I := by simpa using e9
+  have h32a : qmsgFixed + I.length < 2 ^ 32 := by simp [qmsgFixed]; omega
+  have h32b : qmsgFixed + I.length + J.length < 2 ^ 32 := by simp [qmsgFixed]; omega
+  rw [e1, e2, e3, e4]
+  simp only [Res.bind, readU64_leBytes _ ht, readU64_leBytes _ hh, readU64_leBytes _ hr, readOffset_leBytes qmsgFixed (by simp [qmsgFixed])]
+  rw [if_neg (by simp [qmsgFixed]; omega), if_neg (by simp [qmsgFixed]), e5, e6]
+  simp only [readU64_leBytes _ hdr, e7, readOffset_leBytes _ h32a]
+  rw [if_neg (by simp [qmsgFixed]; omega), e8]
+  simp only [readOffset_leBytes _ h32b]
+  rw [if_neg (by simp [qmsgFixed]), e9']
+  simp only []
+  rw [if_neg (by simp [maxIdentifier]; omega), e10]
+  simp only [maxJustifications, maxJustificationSize, d6, u6, e11, d7, u7]
+
 end Ssv.Ssz
